@@ -104,6 +104,43 @@ def coq_bytes_list(strs):
     return "[" + "; ".join("[" + "; ".join(str(b) for b in x.encode()) + "]" for x in strs) + "]"
 
 
+def find_cli(rel):
+    """clap ranges and defaults per Struct.field, preset -> delimiter arms, the two refusals of cli()"""
+    src = strip_comments(read(rel))
+    out = {"ranges": [], "presets": {}, "refusals": {}}
+    for sm in re.finditer(r"pub\s+struct\s+(\w+)\s*\{(.*?)\n\}", src, flags=re.S):
+        sname, body = sm.group(1), sm.group(2)
+        for fm in re.finditer(r"((?:\s*#\[[^\n]*\]\s*\n)+)\s*pub\s+(\w+)\s*:\s*([\w<>]+)", body):
+            attrs, field = fm.group(1), fm.group(2)
+            rm = re.search(r"\.range\(\s*(\d+)\s*\.\.(=?)\s*(\d*)\s*\)", attrs)
+            dm = re.search(r"default_value_t\s*=\s*(\d+)", attrs)
+            if rm or dm:
+                lo = int(rm.group(1)) if rm else 0
+                hi = None
+                if rm and rm.group(3) != "":
+                    hi = int(rm.group(3)) if rm.group(2) == "=" else int(rm.group(3)) - 1
+                out["ranges"].append(("%s.%s" % (sname, field), lo, hi, int(dm.group(1)) if dm else None, bool(rm)))
+    arms = re.findall(r'VecFmtPreset::(\w+)\s*=>\s*(\w+)\.set_delim\(\s*"([^"]*)"\.to_owned\(\)\s*\)', src)
+    for name, var, lit in arms:
+        lit = lit.encode().decode("unicode_escape")
+        out["presets"].setdefault({"com": "oligo", "cov": "cov"}.get(var, var), []).append((name.lower(), lit))
+    out["refusals"]["w_le_m"] = bool(re.search(r"command\.w_size\s*<=\s*command\.m_size\s*&&\s*command\.w_size\s*>\s*0", src))
+    mm = re.search(r"command\.m_size\s*>=\s*(\d+)", src)
+    out["refusals"]["m_ge"] = int(mm.group(1)) if mm else None
+    out["refusals"]["whole_cgr_counts"] = bool(re.search(r"if\s+command\.counts\s*\{\s*eprintln!\(\s*\"Error: cannot use counts in whole sequence CGR!\"\s*\)\s*;\s*return\s*;", src))
+    if not out["ranges"]:
+        return None
+    return out
+
+
+def coq_opt(v):
+    return "None" if v is None else "Some %d" % v
+
+
+def coq_str(x):
+    return "[" + "; ".join(str(b) for b in x.encode()) + "]"
+
+
 def coq_list(vals, per_line=32):
     rows = [vals[i:i + per_line] for i in range(0, len(vals), per_line)]
     return "[" + ";\n   ".join("; ".join(str(v) for v in r) for r in rows) + "]"
@@ -178,6 +215,20 @@ def main(out_path, report_path):
         report["items"]["suffixes"] = {"source": "ktio/src/seq.rs", "kind": "suffix literals of SeqFormat::get", "how": how}
         out.append("Definition suffixes_fastq : list (list N) := %s." % coq_bytes_list(sf["Fastq"]))
         out.append("Definition suffixes_fasta : list (list N) := %s." % coq_bytes_list(sf["Fasta"]))
+    cli = find_cli("kmertools/src/args.rs")
+    if cli is None:
+        report["missing"].append("cli")
+    else:
+        report["items"]["cli"] = {"source": "kmertools/src/args.rs", "kind": "clap ranges/defaults, preset arms, refusals"}
+        out.append("(* Struct.field -> (lo, inclusive hi, default, has an explicit range) *)")
+        out.append("Definition cli_ranges : list (list N * (N * option N * option N * bool)) :=\n  [%s]." % ";\n   ".join(
+            "(%s (* %s *), (%d, %s, %s, %s))" % (coq_str(k), k, lo, coq_opt(hi), coq_opt(d), "true" if has else "false") for k, lo, hi, d, has in cli["ranges"]))
+        for sub in ("oligo", "cov"):
+            out.append("Definition cli_presets_%s : list (list N * list N) := [%s]." % (
+                sub, "; ".join("(%s, %s)" % (coq_str(n), coq_str(l)) for n, l in cli["presets"].get(sub, []))))
+        out.append("Definition cli_min_refuses_w_le_m : bool := %s." % ("true" if cli["refusals"]["w_le_m"] else "false"))
+        out.append("Definition cli_min_refuses_m_ge : option N := %s." % coq_opt(cli["refusals"]["m_ge"]))
+        out.append("Definition cli_whole_cgr_refuses_counts : bool := %s." % ("true" if cli["refusals"]["whole_cgr_counts"] else "false"))
     text = "\n".join(out) + "\n"
     old = open(out_path).read() if os.path.exists(out_path) else None
     report["changed"] = (old != text)
